@@ -417,7 +417,24 @@ def main(argv=None):
     r = sub.add_parser("replay")
     r.add_argument("path")
     sub.add_parser("selftest")
+    k = sub.add_parser("case")
+    k.add_argument("prop")
+    k.add_argument("index", type=int, nargs="+")
+    k.add_argument("--tier", default="quick")
     a = ap.parse_args(argv)
+    if a.cmd == "case":
+        from . import vkit  # noqa: F401
+
+        mod = importlib.import_module("checks." + a.prop.lower())
+        cases, meta = mod.build_cases(a.tier, 0)
+        for ix in a.index:
+            t0 = time.time()
+            out = mod.run_case(cases[ix], a.tier)
+            print(ix, mod.case_json(cases[ix]) if hasattr(mod, "case_json") else "", f"{time.time() - t0:.2f}s")
+            print("  counters:", dict(out.get("counters", {})))
+            for v in out.get("viols", [])[:5]:
+                print("  VIOL", json.dumps(v.get("sig"), default=str), (v.get("msg") or "")[-700:])
+        return 0
     if a.cmd == "check":
         return run_check(a.prop.upper(), a.tier, a.jobs, a.limit)
     if a.cmd == "replay":
